@@ -554,3 +554,24 @@ impl ConnectionHandler for Handler {
         }
     }
 }
+
+#[cfg(libp2p_verif)]
+impl Handler {
+    /// Verification hook: pops the next queued RPC exactly as the outbound substream would
+    /// (`Queue::poll_pop` → `into_protobuf`) and returns it as one length-prefixed frame written
+    /// by the real codec. `None` when the queue is empty or the handler is disabled.
+    pub fn verif_pop_wire(&mut self) -> Option<Vec<u8>> {
+        let Handler::Enabled(handler) = self else {
+            return None;
+        };
+        let waker = futures::task::noop_waker();
+        let mut cx = Context::from_waker(&waker);
+        match handler.message_queue.poll_pop(&mut cx) {
+            Poll::Ready(message) => {
+                let max = handler.listen_protocol.default_max_transmit_size;
+                crate::verif::encode(max, message.into_protobuf()).ok()
+            }
+            Poll::Pending => None,
+        }
+    }
+}
